@@ -36,7 +36,17 @@ impl NodeRig {
     /// Default schedule until nothing moves; waits for loopback I/O (the contract call) when a
     /// task is blocked and the stub has been active recently.
     pub fn settle(&mut self) {
+        self.settle_until(|| true)
+    }
+
+    /// Run everything to quiescence. Whether a task blocked on loopback I/O will still be answered cannot be seen from
+    /// here, so "nothing moved for a while" ends the wait only once `done()` holds (the operation the caller is
+    /// interested in has produced its result); until then the wait goes on for up to 60 s without any progress — on a
+    /// loaded machine the stub's thread may not be scheduled for longer than any short grace period, and taking that
+    /// for "the upload never completes" was a false alarm.
+    pub fn settle_until(&mut self, done: impl Fn() -> bool) {
         let mut idle_turns = 0;
+        let mut last_progress = std::time::Instant::now();
         loop {
             self.d.settle();
             if self.d.exec.unfinished().is_empty() {
@@ -46,14 +56,19 @@ impl NodeRig {
             self.d.exec.runtime().block_on(async { tokio::time::sleep(std::time::Duration::from_millis(1)).await });
             if !self.d.exec.runnable().is_empty() {
                 idle_turns = 0;
+                last_progress = std::time::Instant::now();
                 continue;
             }
             idle_turns += 1;
             let stub_busy = self.stub.idle_for() < std::time::Duration::from_millis(40);
-            if idle_turns > 25 && !stub_busy {
-                break; // whatever is left waits for the outside world (parked requests) or a long timer
-            }
-            if idle_turns > 3000 {
+            if done() {
+                if idle_turns > 25 && !stub_busy {
+                    break; // whatever is left waits for the outside world (parked requests) or a long timer
+                }
+                if idle_turns > 3000 {
+                    break;
+                }
+            } else if last_progress.elapsed() > std::time::Duration::from_secs(60) {
                 break;
             }
         }
@@ -67,7 +82,8 @@ impl NodeRig {
             let r = fut.await;
             *s2.lock().unwrap() = Some(r);
         });
-        self.settle();
+        let s3 = slot.clone();
+        self.settle_until(move || s3.lock().unwrap().is_some());
         let r = slot.lock().unwrap().take();
         r
     }
